@@ -73,6 +73,62 @@ func parseHandlerOutcome(s string) *handlerOutcome {
 	return o
 }
 
+// packageErrors: error values of the package itself, as a handler that delegates to the library would return them,
+// plus two of the caller's own.
+func packageErrors() []error {
+	var out []error
+	add := func(err error) {
+		if err == nil {
+			return
+		}
+		for _, e := range out {
+			if e == err {
+				return
+			}
+		}
+		out = append(out, err)
+	}
+	_, e := rjson.SkipValue([]byte("[1, [2, 3"), nil)
+	add(e)
+	_, e = rjson.SkipValue([]byte("x"), nil)
+	add(e)
+	_, e = rjson.SkipValue([]byte(`"abc`), nil)
+	add(e)
+	_, e = rjson.SkipValue([]byte(""), nil)
+	add(e)
+	_, e = rjson.SkipValue([]byte("1e"), nil)
+	add(e)
+	_, e = rjson.SkipValue(nested(10050, "[", "", false), nil)
+	add(e)
+	_, e = rjson.ReadNull([]byte("x"))
+	add(e)
+	_, _, e = rjson.ReadBool([]byte("x"))
+	add(e)
+	_, _, e = rjson.ReadUint64([]byte("x"))
+	add(e)
+	_, _, e = rjson.ReadInt64([]byte("-"))
+	add(e)
+	_, _, e = rjson.ReadFloat64([]byte("x"))
+	add(e)
+	_, _, e = rjson.ReadFloat64([]byte("1e999"))
+	add(e)
+	_, _, e = rjson.ReadString([]byte("x"), nil)
+	add(e)
+	_, _, e = rjson.ReadString([]byte("\"\\x\""), nil)
+	add(e)
+	_, e = rjson.HandleArrayValues([]byte("x"), &scripted{}, nil)
+	add(e)
+	_, e = rjson.HandleObjectValues([]byte("x"), &scripted{}, nil)
+	add(e)
+	_, e = rjson.HandleArrayValues([]byte("[1"), &scripted{}, nil)
+	add(e)
+	_, _, e = rjson.NextToken([]byte(""))
+	add(e)
+	add(sentinels[3])
+	add(errors.New("caller's own"))
+	return out
+}
+
 // mixes of decline / exact per call
 func scriptMixes(c *Ctx, exactSc []Directive) [][]Directive {
 	out := [][]Directive{{{PP: 0}}, exactSc}
@@ -229,6 +285,62 @@ func init() {
 		}
 		if err := s.Run(cases); err != nil {
 			return "", err
+		}
+		// the public wrappers (rjson.HandleArrayValues / HandleObjectValues, nil and reused Buffer): whatever error the handler
+		// returns - a caller's own value or one of the package's own error values, as a handler that delegates to
+		// rjson.SkipValue / a reader does - comes back as the very same value (==), with the very same offset the
+		// machine reports
+		pubErrs := packageErrors()
+		for _, mc := range []struct {
+			name string
+			open byte
+		}{{"handleArrayValues", '['}, {"handleObjectValues", '{'}} {
+			pool, _ := containerDocs(c, mc.open)
+			if len(pool) > c.scale(600, 6000) {
+				pool = pool[:c.scale(600, 6000)]
+			}
+			buf := &rjson.Buffer{}
+			for di, d := range pool {
+				ex := exactScript(mc.name, d)
+				if len(ex) == 0 {
+					continue
+				}
+				k := 1 + (di*7)%len(ex)
+				sc := make([]Directive, k)
+				copy(sc, ex[:k-1])
+				sc[k-1] = Directive{Err: true, ID: 1, PP: ex[k-1].PP}
+				e := pubErrs[di%len(pubErrs)]
+				for _, useBuf := range []bool{false, true} {
+					h := &scripted{script: sc, total: len(d), override: e}
+					var p int
+					var err error
+					out := guard(func() string {
+						var b *rjson.Buffer
+						if useBuf {
+							b = buf
+						}
+						if mc.name == "handleArrayValues" {
+							p, err = rjson.HandleArrayValues(exact(d), h, b)
+						} else {
+							p, err = rjson.HandleObjectValues(exact(d), h, b)
+						}
+						return "done"
+					})
+					s.Evaluations++
+					s.Classes["public-wrapper"]++
+					line := fmt.Sprintf("public %s %s errAtCall=%d err=%q buffer=%v", mc.name, hx(d), k, e.Error(), useBuf)
+					if out != "done" {
+						s.Violation(line, out, "no panic", "public-wrapper", "public wrapper panicked")
+						continue
+					}
+					if h.idx == k && err != e {
+						s.Violation(line, fmt.Sprintf("returned %v (%p-identity differs) p=%d", err, err, p), "the handler's own error value", "public-wrapper", "handler error not returned unchanged by the public wrapper")
+					}
+					if h.idx > k {
+						s.Violation(line, fmt.Sprintf("%d calls", h.idx), fmt.Sprintf("%d calls", k), "public-wrapper", "handler called again after it returned an error")
+					}
+				}
+			}
 		}
 		// transition cover: an error on the first / last call of every cover string
 		for _, name := range []string{"handleArrayValues", "handleObjectValues"} {
